@@ -199,3 +199,16 @@ package tsi
 //@     requires [the_deleted_set_of_this_search] arg0 == is.deleted
 //@     set sub = true
 //@   ensures [dropped_ids_are_taken_out_of_the_fast_path_result] result1 == nil && is.deleted != nil ==> sub
+
+// Search objects are pooled process-wide, across indexes. The deleted-id set a search carries belongs to the index it
+// served: it does not travel with the object into the pool (ids are not unique across indexes - the next index to get the
+// object would have the other index's dropped ids subtracted from its own series).
+//@ prop C13 C10
+//@ func (*MergeSetIndex).putIndexSearch
+//@   requires is != nil
+//@   ghost cleared bool = false
+//@   store indexSearch.deleted
+//@     requires [only_cleared_never_set_on_the_way_to_the_pool] val == nil
+//@     set cleared = true
+//@   call .Put
+//@     requires [no_deleted_set_travels_into_the_pool] cleared
